@@ -24,3 +24,67 @@ Theorem selector_only_at_execute : forall s e h,
          (snd (step s (e, h))) = [].
 Proof. exact selector_only_at_execute. Qed.
 Print Assumptions selector_only_at_execute.
+
+(* ---- the learner protocol of task.complete ---------------------------------------------------------------------------
+   [term_calls s] = the Succeeded / Failed / Abandoned ghost calls recorded in the output of the current event, newest
+   first; [learner_call l r by_worker] = Succeeded l if the response is a success, else Failed l (timed out?) if the
+   worker reported it, else Abandoned l; [learner_next] = the learner [l_fail] hands over after a failure reported
+   by the worker, nothing otherwise. *)
+
+(* learner_linear: completing an uncompleted task that holds learner l makes exactly one terminal call on l; the only
+   other terminal call is Abandoned on the background learner that a successful l handed over, made exactly when no
+   background task is created for it (background learning disabled or its backlog full) *)
+Theorem learner_linear : forall t r b s l p,
+  t_resp (get_task s t) = None -> t_learner (get_task s t) = Some l -> get_pq s (sk_pk (task_scq s t)) = Some p ->
+  let s' := complete_task t r b s in
+  term_calls s' = learner_call l r b :: term_calls s \/
+  exists bidx bdur btimeout bl, resp_success r = true /\ l_succ l = Some (bidx, bdur, btimeout, bl) /\
+     term_calls s' = OGhost (GAbandoned (l_id bl)) :: learner_call l r b :: term_calls s.
+Proof. exact learner_gets_one_call. Qed.
+Print Assumptions learner_linear.
+
+(* ... a task that is completed already, or holds no learner, causes no terminal call ... *)
+Theorem no_learner_no_call : forall t r b s,
+  t_resp (get_task s t) <> None \/ t_learner (get_task s t) = None ->
+  term_calls (complete_task t r b s) = term_calls s.
+Proof. exact no_learner_no_call. Qed.
+Print Assumptions no_learner_no_call.
+
+(* ... afterwards the task holds the learner that a failure reported by the worker hands over, and none otherwise ... *)
+Theorem learner_after_complete : forall t r b s l p,
+  (t < s_ntasks s)%nat ->
+  t_resp (get_task s t) = None -> t_learner (get_task s t) = Some l -> get_pq s (sk_pk (task_scq s t)) = Some p ->
+  t_learner (get_task (complete_task t r b s) t) = learner_next l r b.
+Proof. exact learner_after_complete. Qed.
+Print Assumptions learner_after_complete.
+
+(* ... and in every reachable state (all event lists, no hypothesis) a task that has a response holds no learner:
+   no learner is ever left without its terminal call by a completion, and by [no_learner_no_call] none is called twice *)
+Theorem completed_has_no_learner : forall cfg t0 evs t r,
+  let s := fst (run (init cfg t0) evs) in
+  t_resp (get_task s t) = Some r -> t_learner (get_task s t) = None.
+Proof. exact completed_has_no_learner. Qed.
+Print Assumptions completed_has_no_learner.
+
+(* retry_once_largest: a failure reported by the worker for which the learner asks for a retry (l_fail l = Some
+   (d, tm, nl)) re-targets the task and every one of its operations to the largest size class of its platform queue,
+   with expected duration d, timeout tm, learner nl and no response; l was told Failed.  Whether a second retry
+   can follow is the learner's decision (nl's l_fail): the scheduler retries exactly when asked. *)
+Theorem retry_once_largest : forall t r s l d tm nl p,
+  t_resp (get_task s t) = None ->
+  t_learner (get_task s t) = Some l -> l_fail l = Some (d, tm, nl) -> resp_success r = false ->
+  get_pq s (sk_pk (task_scq s t)) = Some p ->
+  NoDup (map snd (t_ops (get_task s t))) ->
+  let lk := mkSK (sk_pk (task_scq s t)) (largest_sc p) in
+  let s' := complete_task t r true s in
+  t_resp (get_task s' t) = None /\ t_learner (get_task s' t) = Some nl /\
+  t_expdur (get_task s' t) = d /\ t_timeout (get_task s' t) = tm /\
+  t_ops (get_task s' t) = map (fun '(i, o) => (mkI lk (i_path i), o)) (t_ops (get_task s t)) /\
+  (forall i o, In (i, o) (t_ops (get_task s t)) -> op_alive s o = true -> o_inv (get_op s' o) = mkI lk (i_path i)) /\
+  In (OGhost (GFailed (l_id l) (r_code r =? cDEADLINE)%N)) (s_out s').
+Proof. exact retry_on_largest. Qed.
+Print Assumptions retry_once_largest.
+
+(* NOT PROVED: background_bounded (c07_background (observe s) = "") -- as a state invariant it needs hypotheses on
+   the event list (no client uses the invocation key reserved for background learning; background learners do not
+   ask for retries), see docs/areas/Sched-proofs.md. *)
